@@ -247,6 +247,32 @@ pub fn rng_clone() {
     }
 }
 
+/// Quick-tier variant of `rng_eq_index`: the same near-zero core in two
+/// wrappers at two arbitrary read positions (0..=16): == exactly when the
+/// positions are equal.
+#[kani::proof]
+#[kani::unwind(4100)]
+#[kani::stub(<rand_hc::Hc128Core as rand_core::block::BlockRngCore>::generate, crate::c05_block::hc::gen_stub)]
+pub fn rng_eq_index_light() {
+    let mut core = Hc128Core::verif_zeroed();
+    core.verif_t_mut()[1000] = kani::any();
+    core.verif_set_counter(kani::any());
+    let p1: usize = kani::any();
+    let p2: usize = kani::any();
+    kani::assume(p1 <= 16 && p2 <= 16);
+    let mut a = Hc128Rng::verif_from_core(core.clone());
+    let mut b = Hc128Rng::verif_from_core(core);
+    if p1 < 16 {
+        a.verif_inner_mut().generate_and_set(p1);
+    }
+    if p2 < 16 {
+        b.verif_inner_mut().generate_and_set(p2);
+    }
+    assert!((a == b) == (p1 == p2));
+    kani::cover!(p1 == 15 && p2 == 16, "last word vs block used up");
+    kani::cover!(p1 == p2, "same position");
+}
+
 /// Quick-tier clone check: a core that is zero except one arbitrary word, every
 /// read position of the block (symbolic): the clone has the same index and
 /// core fields, compares equal, and the next reads inside the block agree
